@@ -228,7 +228,8 @@ Lemma future_types : forall files pkg m r mt async,
       ob_get_operation_calls ob = length nd /\
       (forall url payload, o_result fin = Response (mkAny url payload) -> type_name url = Some r ->
          ob_result ob = Returned (Instance r payload)) /\
-      (forall code msg, o_result fin = Failed code msg -> ob_result ob = Raised (EStatus code msg)) /\
+      (forall code msg, o_result fin = Failed code msg ->
+         ob_result ob = Raised (if async then EApiError msg else EStatus code msg)) /\
       (forall url payload, o_metadata fin = Some (mkAny url payload) -> type_name url = Some mt ->
          ob_metadata ob = Returned (Instance mt payload)) /\
       (o_metadata fin = None -> ob_metadata ob = Returned PyNone) /\
@@ -242,7 +243,7 @@ Proof.
   destruct (lro_accepted_sound files pkg m r mt D) as [oi [_ [_ [_ [_ [_ [Ir Im]]]]]]].
   repeat split; try assumption.
   - intros url payload R T. unfold settle. rewrite R. simpl. now apply from_any_typed.
-  - intros code msg R. unfold settle. now rewrite R.
+  - intros code msg R. unfold settle. rewrite R. now destruct async.
   - intros url payload M T. unfold metadata_of. rewrite M. simpl. now apply from_any_typed.
   - intros M. unfold metadata_of. now rewrite M.
 Qed.
